@@ -346,3 +346,14 @@ func encodePostOpAttr(buf *bytes.Buffer, attrs *NFSAttrs) error {
 func encodeNoPostOpAttr(buf *bytes.Buffer) {
 	xdrEncodeUint32(buf, 0) // attributes_follow = FALSE
 }
+
+// postOpAttrs returns node's attributes after an operation that has already
+// been carried out. When they cannot be read the operation is still reported
+// as done (with the pre-operation attributes, as the failure replies do):
+// answering it as failed would make the client retry something that happened.
+func (h *NFSProcedureHandler) postOpAttrs(node *NFSNode, pre *NFSAttrs) *NFSAttrs {
+	if post, err := h.server.handler.GetAttr(node); err == nil && post != nil {
+		return post
+	}
+	return pre
+}
